@@ -32,7 +32,7 @@ EVENTS = ['R3', 'RS', 'R2', 'X', 'RM']
 
 
 def bounds(tier):
-    return {'history_depth': 2 if tier == 'quick' else 4, 'events': EVENTS, 'hostings': 3,
+    return {'history_depth': 2 if tier == 'quick' else 4, 'events': EVENTS, 'hostings': '3 (+ an unmated gear with tooth data on a subset)',
             'data_subsets': 'spur 8x8, helical 8x8, worm->wheel 2x4, wheel->worm 4x2', 'motors': 2}
 
 
@@ -103,6 +103,10 @@ def make_spec(cfg, hosting, cur):
         tail_e, tail_l = [{'k': 'S', 'z': 20, 'J': J}], [{'t': 'J'}]     # a worm gear cannot carry the load
     if hosting == 2:
         tail_e, tail_l = tail_e + [{'k': 'S', 'z': 25, 'J': J}], tail_l + [{'t': 'J'}]
+    if hosting == 3:
+        # a gear WITH tooth data that takes part in no mating (fixed joints only): it advertises a tangential force that
+        # cannot be computed; either the run is refused or the samples are quantities -- never recorded placeholders
+        tail_e, tail_l = tail_e + [dict({'k': 'S', 'z': 25, 'J': J}, **gear_data((True, True, True)))], tail_l + [{'t': 'J'}]
     els = [motor] + pre_e + [a, b] + tail_e
     links = [{'t': 'J'}] + pre_l + [link] + tail_l
     spec = {'elements': els, 'links': links, 'init': {'theta': [0.0, 'rad'], 'w': [0.0, 'rad/s']}}
@@ -262,6 +266,8 @@ def shards(tier):
     for ci in range(len(cfgs)):
         for hosting in (0, 1, 2):
             out.append({'cfg': ci, 'hosting': hosting})
+        if ci % 8 == 7 or cfgs[ci][0] != 'spur' and ci % 4 == 3:
+            out.append({'cfg': ci, 'hosting': 3})
     return out
 
 
